@@ -9,6 +9,8 @@ V_TINY = [0.5, 0.25, 0.3]
 V_UNDER = [1.0, 0.5, 1e-200, 5e-324]
 
 PATTERNS = ['A', 'AA', 'AB', 'AAA', 'AAB', 'ABA', 'ABB', 'ABC']
+# all restricted-growth strings of length 4 (set partitions of 4 positions into variable types)
+PATTERNS4 = ['AAAA', 'AAAB', 'AABA', 'AABB', 'AABC', 'ABAA', 'ABAB', 'ABAC', 'ABBA', 'ABBB', 'ABBC', 'ABCA', 'ABCB', 'ABCC', 'ABCD']
 
 
 def desc_lists(values, max_len, min_len=1):
